@@ -21,6 +21,23 @@ def dump_mir(crate, workdir):
         workdir = workdir + "-alt" + hashlib.sha1(REPO.encode()).hexdigest()[:8]
     os.makedirs(workdir, exist_ok=True)
     out = os.path.join(workdir, crate + ".mir")
+    # the dump is a function of the workspace sources: re-dump whenever any source file differs from the one the
+    # cached dump was made from (content hash, not mtime), reuse it otherwise (several jobs / shards ask for it per run)
+    import hashlib
+    h = hashlib.sha1()
+    for root, dirs, files in sorted(os.walk(REPO)):
+        dirs[:] = sorted(d for d in dirs if d not in ("target", ".git"))
+        for f in sorted(files):
+            if f.endswith((".rs", ".toml", ".lock")):
+                fp = os.path.join(root, f)
+                h.update(os.path.relpath(fp, REPO).encode())
+                h.update(open(fp, "rb").read())
+    stamp = h.hexdigest()
+    stamp_file = out + ".stamp"
+    if os.path.exists(out) and os.path.exists(stamp_file) and open(stamp_file).read() == stamp:
+        text = open(out).read()
+        if text.strip():
+            return text
     env = dict(os.environ)
     env["CARGO_TARGET_DIR"] = os.path.join(workdir, "target")
     env["CARGO_NET_OFFLINE"] = "true"
@@ -32,7 +49,9 @@ def dump_mir(crate, workdir):
                        cwd=os.path.join(REPO, crate), env=env, stdout=subprocess.PIPE, stderr=subprocess.PIPE, text=True)
     if p.returncode != 0 or not p.stdout.strip():
         raise Unsupported("MIR dump failed: " + p.stderr[-2000:])
-    open(out, "w").write(p.stdout)
+    open(out + ".tmp", "w").write(p.stdout)
+    os.replace(out + ".tmp", out)
+    open(stamp_file, "w").write(stamp)
     return p.stdout
 
 
